@@ -10,6 +10,7 @@ import (
 	"strings"
 
 	"github.com/gobuffalo/flect/name"
+	"github.com/gobuffalo/plush/v5/internal/cyclic"
 )
 
 type Pathable interface {
@@ -31,6 +32,19 @@ type Paramable interface {
 // * if `struct.Slug` the slug is used to fill the `{id}` slot of the URL
 // * if `struct.ID` the ID is used to fill the `{id}` slot of the URL
 func PathFor(in interface{}) (string, error) {
+	return pathFor(in, 0)
+}
+
+// maxDepth bounds the nesting of slices a path is built from, so that a
+// slice that (directly or indirectly) contains itself is an error instead of
+// a recursion that exhausts the stack.
+const maxDepth = 100
+
+func pathFor(in interface{}, depth int) (string, error) {
+	if depth > maxDepth {
+		return "", fmt.Errorf("could not convert %T to path: nested too deeply", in)
+	}
+
 	if in == nil {
 		return "", errors.New("can not calculate path to nil")
 	}
@@ -67,7 +81,7 @@ func PathFor(in interface{}) (string, error) {
 		var paths []string
 		for i := 0; i < rv.Len(); i++ {
 			xrv := rv.Index(i)
-			s, err := PathFor(xrv.Interface())
+			s, err := pathFor(xrv.Interface(), depth+1)
 			if err != nil {
 				return "", err
 			}
@@ -92,6 +106,9 @@ func byField(ni name.Ident, f reflect.Value) (string, error) {
 	zero := reflect.DeepEqual(ii, reflect.Zero(reflect.TypeOf(ii)).Interface())
 	if zero {
 		return join(ni.URL().String()), nil
+	}
+	if cyclic.Contains(ii) {
+		return "", fmt.Errorf("could not convert %T to path: the value contains itself", ii)
 	}
 	return join(ni.URL().String(), fmt.Sprint(ii)), nil
 }
